@@ -290,6 +290,11 @@ def rules(ctx):
             if isinstance(e, ast.Call) and is_name(e.func, 'sum') and len(e.args) == 1 and \
                     isinstance(e.args[0], (ast.GeneratorExp, ast.ListComp)) and is_const(e.args[0].elt, 1):
                 return src(e.args[0])
+            if isinstance(e, ast.Call) and is_name(e.func, 'sum') and len(e.args) == 1 and \
+                    isinstance(e.args[0], (ast.GeneratorExp, ast.ListComp)) and not e.args[0].generators[0].ifs and \
+                    isinstance(e.args[0].elt, ast.BinOp) and isinstance(e.args[0].elt.op, ast.Mod) and is_const(e.args[0].elt.right, 2) \
+                    and '.count(' in src(e.args[0].elt.left):
+                return src(e.args[0])          # sum of the parities: the number of labels that occur an odd number of times
             return None
         for n in ast.walk(fn.node):
             text = None
